@@ -944,9 +944,7 @@ def _feed(node, raw, cls, sender, out):
     for data, addr in replies:
         v2, r2, _ = judge(data)
         if v2 in ("malformed", "dontcare"):
-            nonascii = any(c >= 128 for c in raw)
-            out.violate("reply-not-wellformed:%s%s" % (r2, ":after-nonascii-input" if nonascii else ""),
-                        "reply %s to datagram %s" % (data[-80:].hex(), short))
+            out.violate("reply-not-wellformed:%s" % r2, "reply %s to datagram %s" % (data[-80:].hex(), short))
         else:
             out.label("reply-" + v2)
     node.spin()
